@@ -31,6 +31,7 @@ META = {
 }
 META["explanation"] += ' Also: calls through names bound to the random modules, parallel execution, tqdm display state, descriptors keeping values on themselves.'
 META["explanation"] += ' Round 5: E5 (what choice / choices / sample / shuffle draw from is not ordered by a set, also through package helpers), module-level iterator objects (E4), classes instantiated through a constant table (E3), DEP-C06 VALUE strategy (no decision by identity of equal strings); **options mappings built elsewhere are not decided. HAZARD: constructs that do not mean what they look like, met in the analysed code (defaults evaluated once, class-level containers changed through self, dict.fromkeys with a shared mutable value, late-binding lambdas, truth value of objects that define __len__) are reported by every check.'
+META["explanation"] += ' Round 6: process-wide switches (torch.set_flush_denormal, np.seterr, ...) (E2); generator classes handed on as factories (E1); helper functions whose entropy source is a parameter defaulting to a global-generator function count as draw sites.'
 MIN_INSTANCES = {"E1": 15, "E2": 1, "E3": 2, "E4": 1, "FIXTURE": 1}
 
 CLOCKS = ("time.", "datetime.", "uuid.", "secrets.", "os.urandom", "os.getpid", "os.times", "socket.", "platform.node")
